@@ -288,8 +288,9 @@ def gen_scenario(rng, reliable=False):
             ops.append(('sleep', 0.0))
     kinds = ['fifo', 'random0', 'pct0', 'random', 'pct']
     sc = {'ops': ops, 'reliable': reliable, 'policy': (rng.choice(kinds), rng.randrange(1 << 30))}
-    if rng.random() < 0.15:
-        sc['echo'] = rng.randint(1, 2)
+    # (the polling handler 'echo' is used in the systematic family (f) only: combined with concurrent
+    # application sends and delayed dispatch its follow-up can duplicate an outstanding pattern,
+    # which this check assumes away -- seen as false RetryStopped alarms in thorough runs)
     if rng.random() < 0.25:
         sc['recb'] = [rng.choice([1, 2, 3]) for _ in range(rng.randint(1, 2))]
     return sc
